@@ -85,18 +85,20 @@ def run(ck):
     ck.floor('C11.R4', 'addition operators', nadd, 8)
 
     r5_unchecked(ck, w)
+    from . import c10
+    c10.eval_nesting(ck, w, 'C11', 'C11.N1')
     from ..engines import ziplint
     ck.rule('C11.R6', 'zip-truncated comparisons in the curves crate: equality over `zip(..).all(..)` also compares lengths or runs over fixed-size arrays (tables.ZIP_EQ_OK)')
     ziplint.check(ck, w, 'C11.R6', ['curves'], lambda file: True, tables.ZIP_EQ_OK, 1)
 
 
 def unchecked_callers(w):
-    """{unchecked decoder / constructor: set of callers} over the curves and proofs crates (generic trait calls included)"""
+    """{unchecked decoder / constructor: set of callers} over all workspace crates (generic trait calls included)"""
     from ..core import last_seg
     tab = {}
     for nid0 in w.mir_index():
         for b in w.mir_bodies(nid0):
-            if b['_crate'] not in ('curves', 'proofs') or '::tests::' in b['_xid'] or '/tests' in b['file']:
+            if '::tests::' in b['_xid'] or '/tests' in b['file']:
                 continue
             for blk in b['blocks']:
                 t = blk['t']
@@ -108,10 +110,10 @@ def unchecked_callers(w):
     return tab
 
 
-def r5_unchecked(ck, w):
+def r5_unchecked(ck, w, rule='C11.R5', crates=None, floor=30):
     import json, os
     from .. import facts
-    ck.rule('C11.R5', 'who may call an unchecked decoder / constructor (from_bytes_unchecked, from_compressed_unchecked, from_uncompressed_unchecked, '
+    ck.rule(rule, 'who may call an unchecked decoder / constructor (from_bytes_unchecked, from_compressed_unchecked, from_uncompressed_unchecked, '
                       'from_raw_bytes_unchecked, read_raw_unchecked, from_raw_unchecked, …): only the callers of rules/unchecked_callers.json — the checked '
                       'wrappers that validate afterwards, the *_unchecked twins themselves and the format-dispatching readers.  A new caller decodes '
                       'attacker-supplied bytes without the on-curve / subgroup / canonicity checks its checked sibling performs.')
@@ -120,7 +122,9 @@ def r5_unchecked(ck, w):
     n = 0
     for c, callers in sorted(cur.items()):
         for x in sorted(callers):
+            if crates is not None and not any(x.startswith(('midnight_' + c + '::', '<midnight_' + c + '::')) or ('midnight_' + c + '::') in x.split(' as ')[0] for c in crates):
+                continue
             n += 1
-            ck.record('C11.R5', f'{x}|calls:{short(c)}', x in ref.get(c, []), 'tabled caller',
+            ck.record(rule, f'{x}|calls:{short(c)}', x in ref.get(c, []), 'tabled caller',
                       f'{x} calls the unchecked {c} and is not in the who-may-call table: the value it decodes skips the checks of the checked decoder')
-    ck.floor('C11.R5', 'unchecked call pairs', n, 30)
+    ck.floor(rule, 'unchecked call pairs', n, floor)
